@@ -2,8 +2,8 @@ use super::{PResult, Span};
 use crate::sass::{SassString, StringPart};
 use nom::Parser;
 use nom::branch::alt;
-use nom::bytes::complete::{is_not, tag};
-use nom::character::complete::{char, multispace1};
+use nom::bytes::complete::{is_a, is_not, tag};
+use nom::character::complete::char;
 use nom::combinator::{eof, map, map_res, not, opt, peek, value};
 use nom::multi::{fold_many0, fold_many1, many0};
 use nom::sequence::{preceded, terminated};
@@ -96,7 +96,8 @@ pub fn comment2(input: Span) -> PResult<SassString> {
 }
 
 pub fn ignore_space(input: Span) -> PResult<()> {
-    map(multispace1, |_| ()).parse(input)
+    // Space, tab, line feed, carriage return and form feed.
+    map(is_a(" \t\n\r\u{c}"), |_| ()).parse(input)
 }
 
 fn ignore_lcomment(input: Span) -> PResult<()> {
